@@ -151,6 +151,8 @@ def render(e, rng=None, loose=0.0):
 
 # ---- typed generation -------------------------------------------------------------------------
 
+# the smallest int cannot be written as a literal: it is computed
+I32_MIN = ["bin", "-", ["i", -2147483647], ["i", 1]]
 INT_LITS = [0, 1, 2, 3, 5, 7, 10, -1, -4, 100, 46341, 65536, 2147483647]
 FLOAT_LITS = [0.0, 0.5, 1.0, 1.5, 2.0, 0.25, 3.0, 10.0, -1.5, 1024.0, 0.125]
 STR_LITS = ["abc", "b", "x y", "", "Hello", "bc", "7"]
@@ -175,6 +177,8 @@ def leaf(rng, ty):
     if pool and rng.random() < 0.4:
         return ["var", rng.choice(pool)[0]]
     if ty == "int":
+        if rng.random() < 0.04:
+            return I32_MIN
         return ["i", rng.choice(INT_LITS)]
     if ty == "float":
         return ["f", f32bits(rng.choice(FLOAT_LITS))]
@@ -284,7 +288,7 @@ def static_type(e):
 
 def leaves_all():
     """A fixed leaf set for the exhaustive depth-1 enumeration."""
-    ls = [["i", 0], ["i", 3], ["i", -2], ["i", 2147483647], ["f", f32bits(2.5)], ["f", f32bits(0.0)],
+    ls = [["i", 0], ["i", 3], ["i", -1], ["i", 2147483647], I32_MIN, ["f", f32bits(2.5)], ["f", f32bits(0.0)],
           ["b", True], ["b", False], ["s", "abc"], ["s", "b"], ["s", ""],
           ["var", "A"], ["var", "B"], ["var", "C"], ["var", "la"], ["var", "le"], ["list", [], []],
           lit_list(["a2", "b2"]), lit_list(["d7", "a1", "b5"])]
